@@ -51,8 +51,13 @@ def enabled_ops(model, E, K, pairs=None, foreign=False):
             ops += [("mix", k, E[i], E[(i + 1) % len(E)]) for i in range(len(E))]
         ops += [("rep", k, e) for e in E]
         ops.append(("del", k))
+        # the replacement object carries ANOTHER id (e.g. an event read earlier): the addressed id is what counts
+        ops.append(("rep_otherid", k, E[k % len(E)]))
+        # one bulk upsert naming the same id twice: applied in order, the last one stays
+        ops.append(("ups_twice", k, E[0], E[(k + 1) % len(E)]))
     if n:
         ops += [("repl", e) for e in E]
+        ops.append(("repl_otherid", E[1 % len(E)]))
     ops.append(("delx",))
     if foreign:
         ops.append(("delf",))  # delete with an id that is live in ANOTHER bucket (never existed in this one)
@@ -96,6 +101,23 @@ def perform(ds, bid, model, op, emb):
             target = ids[op[1]]
             b.replace(target, emb.ev(*op[2]))
             exp[target] = content(emb, op[2])
+        elif kind == "rep_otherid":
+            target = ids[op[1]]
+            other = ids[(op[1] + 1) % len(ids)] if len(ids) > 1 else NEVER_ID
+            b.replace(target, emb.ev(*op[2], id=other))
+            exp[target] = content(emb, op[2])
+        elif kind == "ups_twice":
+            target = ids[op[1]]
+            b.insert([emb.ev(*op[2], id=target), emb.ev(*op[3], id=target)])
+            exp[target] = content(emb, op[3])
+        elif kind == "repl_otherid":
+            newest = b.get(limit=1)
+            if len(newest) != 1 or newest[0].id not in model.live:
+                return dict(exp=exp, fresh=fresh, target=None, exc=None, pre=f"limit-1 read on non-empty bucket returned {[S.ev_tuple(x) for x in newest]}")
+            target = newest[0].id
+            other = min(ids) if min(ids) != target else (max(ids) if max(ids) != target else NEVER_ID)
+            b.replace_last(emb.ev(*op[1], id=other))
+            exp[target] = content(emb, op[1])
         elif kind == "repl":
             newest = b.get(limit=1)
             if len(newest) != 1 or newest[0].id not in model.live:
